@@ -138,3 +138,6 @@ fn c24_ownership_registers_new() {
     assert!(o.prev_hp == h2, "O-C24.1 heap ownership ends at the caller's heap pointer (innermost call frame)");
     core::mem::forget(vm);
 }
+
+// (a harness for Normal::check_contract_in_inputs over a BTreeSet<ContractId> did not finish in CBMC within 20 minutes
+// even with a single concrete entry; the function is `contains` + set panic context and stays unverified.)
